@@ -179,6 +179,11 @@ func runRegistryMode(in *os.File, out *bufio.Writer) {
 		n++
 		scen := fmt.Sprintf("g%d", n)
 		prefix := scen + "_"
+		if n%2 == 1 {
+			// every other scenario uses names that sort after all built-in names, so that
+			// overwriting the lexicographically greatest registered name is exercised too
+			prefix = fmt.Sprintf("zz%06d_", n)
+		}
 		switch {
 		case sc["procs"] != nil:
 			procs := opList(sc, "procs")
